@@ -650,8 +650,6 @@ def search(ctx, rng, budget):
     # radial coefficients as any list-like object (list, tuple, float and integer ndarray)
     for kind in ('list', 'tuple', 'ndarray', 'int-ndarray'):
         def okey(A, d, kind=kind):
-            if 'raises IndexError' in d and A[2] in ('ndarray', 'int-ndarray'):
-                return 'C10:angular-outer-ndarray'
             return 'C10:angular_outer:%s:%s' % (A[2], d[:40])
         run('angular_outer', (rng.normal(size=int(rng.integers(1, 5))), rng.normal(size=int(rng.integers(2, 5))) * 3, kind),
             okey, ('outer', kind))
